@@ -177,7 +177,7 @@ fn gen_key(rng: &mut Rng) -> (u8, u8) {
 
 pub fn generate(rng: &mut Rng, thorough: bool) -> Scenario {
     // a share of the runs moves between two OS threads (thread-affine state would show)
-    let migrate = rng.permille(120);
+    let migrate = rng.permille(100);
     let method = match rng.below(4) {
         0 => Method::Fast,
         1 => Method::Verified,
@@ -273,7 +273,7 @@ pub fn generate(rng: &mut Rng, thorough: bool) -> Scenario {
                 }
             };
             ops.push(op);
-            if migrate && rng.permille(150) {
+            if migrate && rng.permille(350) {
                 ops.push(Op::Migrate);
             }
         }
